@@ -358,3 +358,453 @@ Proof.
   all: try (rc; assumption).
   all: try (eapply G_bind; [apply push_ns_rel; exact HR|]; intros y1 y2 Hy; constructor; rc; exact Hy).
 Qed.
+
+(* ---- resolve_namespaces ---- *)
+
+Lemma resolve_ns_loop_rel : forall text s is d1 d2, Rd d1 d2 ->
+  G Rd (resolve_ns_loop text s is d1) (resolve_ns_loop text s is d2).
+Proof.
+  induction is as [|i r IH]; intros d1 d2 H; cbn [resolve_ns_loop].
+  - constructor; assumption.
+  - pose proof H as [_ [_ [_ Ht]]]. rewrite <- Ht.
+    apply G_same. intros vidx.
+    rewrite <- (ns_prefix_at_ext text d1 d2 vidx H). apply G_same. intros name.
+    rewrite <- (ns_exists_ext text d1 d2 s name H). apply G_same. intros ex.
+    eapply G_bind with (P := Rd).
+    + destruct ex; [constructor; assumption|apply push_ref_rel; assumption].
+    + intros; apply IH; assumption.
+Qed.
+
+Lemma resolve_namespaces_rel : forall text c1 c2, Rc c1 c2 ->
+  G PRc (resolve_namespaces text c1) (resolve_namespaces text c2).
+Proof.
+  intros text c1 c2 H. rce H. unfold resolve_namespaces. cproj.
+  pose proof HR as [Hn [_ [_ Ht]]].
+  eapply G_bind; [apply Rn_nth; exact Hn|].
+  intros p1 p2 Hp. apply strip_node_proj in Hp. destruct Hp as [_ [_ [_ [_ Hk]]]]. rewrite <- Hk.
+  rewrite <- Ht.
+  assert (Hroot : G PRc
+    (let! r := ns_range_checked (c_ns_start_idx c1) (len_N (d_ns_tree (c_doc c1))) in Ok (r, c1))
+    (let! r := ns_range_checked (c_ns_start_idx c1) (len_N (d_ns_tree (c_doc c1))) in
+     Ok (r, set_doc c1 d2))).
+  { apply G_same. intros r. constructor. split; [reflexivity|]. cbn [snd]. rc. assumption. }
+  destruct (nd_kind p1) as [|ns_idx local attrs nss| | |]; try exact Hroot.
+  destruct (c_ns_start_idx c1 =? len_N (d_ns_tree (c_doc c1))).
+  - constructor. split; [reflexivity|]. cbn [snd]. rc. assumption.
+  - destruct nss as [pa pe].
+    eapply G_bind; [apply resolve_ns_loop_rel; exact HR|].
+    intros y1 y2 Hy. pose proof Hy as [_ [_ [_ Hty]]]. rewrite <- Hty.
+    apply G_same. intros r. constructor. split; [reflexivity|]. cbn [snd]. rc. assumption.
+Qed.
+
+(* ---- resolve_attributes ---- *)
+
+Lemma strip_attr_proj : forall a b, strip_attr a = strip_attr b ->
+  ad_ns_idx a = ad_ns_idx b /\ ad_local a = ad_local b /\ ad_value a = ad_value b.
+Proof. intros a b H. unfold strip_attr in H. inversion H. auto. Qed.
+
+Lemma Ra_len : forall l1 l2, Ra l1 l2 -> len_N l1 = len_N l2.
+Proof. intros l1 l2 H. rewrite <- (len_N_map _ _ strip_attr l1), H. apply len_N_map. Qed.
+
+Lemma Ra_skipn : forall n l1 l2, Ra l1 l2 -> Ra (skipn n l1) (skipn n l2).
+Proof.
+  induction n as [|n IH]; intros l1 l2 H; [exact H|].
+  destruct l1 as [|x l1], l2 as [|y l2]; try discriminate H; [reflexivity|].
+  unfold Ra in H. cbn [map] in H. apply cons_inj in H. cbn [skipn]. apply IH. tauto.
+Qed.
+
+Lemma any_same_name_rel : forall text d1 d2 name l1 l2, Rd d1 d2 -> Ra l1 l2 ->
+  any_same_name text d1 l1 name = any_same_name text d2 l2 name.
+Proof.
+  intros text d1 d2 name. induction l1 as [|x l1 IH]; intros [|y l2] HR H; try discriminate H.
+  - reflexivity.
+  - unfold Ra in H. cbn [map] in H. apply cons_inj in H. destruct H as [Hxy Hl].
+    apply strip_attr_proj in Hxy. destruct Hxy as [E1 [E2 _]].
+    cbn [any_same_name]. rewrite <- E1, <- E2.
+    rewrite <- (attr_expanded_name_ext text d1 d2 _ _ HR). rewrite (IH l2 HR Hl). reflexivity.
+Qed.
+
+Lemma resolve_attrs_loop_rel : forall text nss start l d1 d2, Rd d1 d2 ->
+  G Rd (resolve_attrs_loop text nss start l d1) (resolve_attrs_loop text nss start l d2).
+Proof.
+  induction l as [|a l IH]; intros d1 d2 H; cbn [resolve_attrs_loop].
+  - constructor; assumption.
+  - rewrite <- (get_ns_idx_by_prefix_ext text nss _ _ d1 d2 H).
+    apply G_same. intros ns_idx.
+    rewrite <- (attr_expanded_name_ext text d1 d2 _ _ H). apply G_same. intros name.
+    pose proof H as [Hn [Ha [Hv Ht]]].
+    rewrite <- (any_same_name_rel text d1 d2 name _ _ H (Ra_skipn (N.to_nat start) _ _ Ha)).
+    apply G_same. intros dup. destruct dup; [apply grel_err_from|].
+    apply IH. repeat split; cproj; auto.
+    unfold Ra in *. rewrite !map_app, Ha. reflexivity.
+Qed.
+
+Lemma resolve_attributes_rel : forall text nss c1 c2, Rc c1 c2 ->
+  G PRc (resolve_attributes text nss c1) (resolve_attributes text nss c2).
+Proof.
+  intros text nss c1 c2 H. rce H. unfold resolve_attributes. cproj.
+  pose proof HR as [_ [Ha _]].
+  destruct (c_cur_attrs c1) as [|t l].
+  - constructor. split; [reflexivity|]. cbn [snd]. rc. assumption.
+  - rewrite <- (Ra_len _ _ Ha).
+    destruct (u32_max <=? len_N (d_attrs (c_doc c1)) + len_N (t :: l)); [constructor|].
+    eapply G_bind; [apply resolve_attrs_loop_rel; exact HR|].
+    intros y1 y2 Hy. pose proof Hy as [_ [Hay _]]. rewrite <- (Ra_len _ _ Hay).
+    apply G_same. intros r. constructor. split; [reflexivity|]. cbn [snd]. rc. assumption.
+Qed.
+
+(* ---- process_element ---- *)
+
+Lemma process_element_rel : forall text e r c1 c2, Rc c1 c2 ->
+  G Rc (process_element text e r c1) (process_element text e r c2).
+Proof.
+  intros text e r c1 c2 H. unfold process_element.
+  pose proof H as H0. rce H0. cproj.
+  destruct (slice_len (tn_name (c_tag_name c1)) =? 0).
+  { destruct e; try constructor. apply grel_err_from. }
+  eapply G_bind; [apply resolve_namespaces_rel; apply Rc_doc_same; exact HR|].
+  intros [nsr x1] [nsr' x2] [E Hx]. cbn [fst snd] in E, Hx. subst nsr'. clear HR.
+  rce Hx. cproj. pose proof HR as [_ [_ [_ Ht]]]. rewrite <- Ht.
+  eapply G_bind.
+  { apply resolve_attributes_rel.
+    apply (Rc_doc_same (set_ns_start_idx x1 (len_N (d_ns_tree (c_doc x1))))). exact HR. }
+  intros [attrs y1] [attrs' y2] [E Hy]. cbn [fst snd] in E, Hy. subst attrs'. clear HR Ht.
+  rce Hy. cproj. pose proof HR as [Hn _].
+  destruct e.
+  - (* EOpen *)
+    rewrite <- (get_ns_idx_by_prefix_ext text nsr _ _ (c_doc y1) _ HR).
+    apply G_same. intros tag.
+    eapply G_bind; [apply append_node_rel; exact HR|].
+    intros [i1 z1] [i2 z2] [E Hz]. cbn [fst snd] in E, Hz. subst i2. rce Hz.
+    constructor. rc. assumption.
+  - (* EClose *)
+    destruct (len_N (c_parent_prefixes y1) <=? c_entity_floor y1); [apply grel_err_from|].
+    eapply G_bind; [apply Rn_nth; exact Hn|].
+    intros p1 p2 Hp. apply strip_node_proj in Hp. destruct Hp as [Hpar [_ [_ [_ Hk]]]].
+    rewrite <- Hk, <- Hpar.
+    apply G_same. intros parent_prefix.
+    eapply G_bind; [apply Rn_upd; [apply ok_range_end|exact Hn]|].
+    intros n1 n2 Hn12. cproj.
+    apply G_same. intros u.
+    destruct (nd_parent p1); [|apply grel_err_from].
+    destruct (removelast (c_parent_prefixes y1)); constructor.
+    rc. apply Rd_set_nodes; assumption.
+  - (* EEmpty *)
+    rewrite <- (get_ns_idx_by_prefix_ext text nsr _ _ (c_doc y1) _ HR).
+    apply G_same. intros tag.
+    eapply G_bind; [apply append_node_rel; exact HR|].
+    intros [i1 z1] [i2 z2] [E Hz]. cbn [fst snd] in E, Hz. subst i2. rce Hz.
+    constructor. rc. assumption.
+Qed.
+
+(* ---- process_text: the loop, named ---- *)
+
+Definition pn_loop (text : bytes) (pc : stream -> context -> res (stream * context)) (r : range) :=
+  fix loop (fuel : nat) (s : stream) (buf : text_buffer) (c : context) {struct fuel}
+    : res (text_buffer * context) :=
+    match fuel with
+    | O => OutOfFuel
+    | S fu =>
+      if at_end s then Ok (buf, c) else
+      let! (ch, s) := parse_next_chunk text s (c_entities c) in
+      match ch with
+      | ChByte x => loop fu s (tb_push_from_text x buf) c
+      | ChChar cp =>
+        loop fu s (push_char_bytes_text (encode_utf8 cp) (0 <? ld_depth (c_ld c)) buf) c
+      | ChText value =>
+        let! c := if negb (tb_is_empty buf)
+                  then let! bs := tb_finish buf in append_text (CowOwned bs) r c
+                  else Ok c in
+        let! ld := inc_references text s (c_ld c) in
+        let! ld := inc_depth text s ld in
+        let c := set_ld c ld in
+        let! es := stream_from_substr text (sl_start value) (sl_end value) in
+        let prev_tag_name := c_tag_name c in
+        let prev_floor := c_entity_floor c in
+        let c := set_entity_floor (set_tag_name c tag_name_null) (len_N (c_parent_prefixes c)) in
+        let! (_, c) := pc es c in
+        if negb (len_N (c_parent_prefixes c) =? c_entity_floor c) then Err UnexpectedEndOfStream
+        else
+          let c := set_entity_floor (set_tag_name c prev_tag_name) prev_floor in
+          let c := set_ld c (dec_depth (c_ld c)) in
+          loop fu s tb_new c
+      end
+    end.
+
+Lemma process_text_with_pn : forall text pc t r c,
+  process_text_with text pc t r c =
+  if negb (existsb (fun x => (x =? 38) || (x =? 13)) (slice_bytes text t))
+  then append_text (CowBorrowed t) r c
+  else
+    let! s0 := stream_from_substr text (fst r) (snd r) in
+    let! (buf, c) := pn_loop text pc r (S (length (s_rest s0))) s0 tb_new c in
+    if negb (tb_is_empty buf)
+    then let! bs := tb_finish buf in append_text (CowOwned bs) r c
+    else Ok c.
+Proof. reflexivity. Qed.
+
+Section PC.
+Variable text : bytes.
+Variable pc : stream -> context -> res (stream * context).
+Hypothesis Hpc : forall s c1 c2, Rc c1 c2 -> G PRc (pc s c1) (pc s c2).
+
+Lemma pn_loop_rel : forall r fuel s buf c1 c2, Rc c1 c2 ->
+  G PRc (pn_loop text pc r fuel s buf c1) (pn_loop text pc r fuel s buf c2).
+Proof.
+  induction fuel as [|fu IH]; intros s buf c1 c2 H; [constructor|].
+  cbn [pn_loop]. pose proof H as H0. rce H0. cproj.
+  destruct (at_end s); [constructor; split; [reflexivity|exact H]|].
+  apply G_same. intros [ch s1].
+  destruct ch as [x|cp|value]; [apply IH; exact H|apply IH; exact H|].
+  eapply G_bind with (P := Rc).
+  { destruct (negb (tb_is_empty buf)).
+    - apply G_same. intros bs. apply append_text_rel. exact H.
+    - constructor. exact H. }
+  intros x1 x2 Hx. pose proof Hx as Hx0. rce Hx0. cproj.
+  apply G_same. intros ld1. apply G_same. intros ld2. apply G_same. intros es.
+  eapply G_bind.
+  { apply Hpc. rc. exact HR0. }
+  intros [s2 y1] [s2' y2] [E Hy]. cbn [fst snd] in E, Hy. subst s2'. pose proof Hy as Hy0. rce Hy0. cproj.
+  destruct (negb (len_N (c_parent_prefixes y1) =? c_entity_floor y1)); [constructor|].
+  apply IH. rc. exact HR1.
+Qed.
+
+Lemma process_text_with_rel : forall t r c1 c2, Rc c1 c2 ->
+  G Rc (process_text_with text pc t r c1) (process_text_with text pc t r c2).
+Proof.
+  intros t r c1 c2 H. rewrite !process_text_with_pn.
+  destruct (negb (existsb _ (slice_bytes text t))); [apply append_text_rel; exact H|].
+  apply G_same. intros s0.
+  eapply G_bind; [apply pn_loop_rel; exact H|].
+  intros [buf x1] [buf' x2] [E Hx]. cbn [fst snd] in E, Hx. subst buf'.
+  destruct (negb (tb_is_empty buf)).
+  - apply G_same. intros bs. apply append_text_rel. exact Hx.
+  - constructor. exact Hx.
+Qed.
+End PC.
+
+Lemma token_with_rel : forall text pt,
+  (forall t r c1 c2, Rc c1 c2 -> G Rc (pt t r c1) (pt t r c2)) ->
+  forall tk c1 c2, Rc c1 c2 -> G Rc (token_with text pt tk c1) (token_with text pt tk c2).
+Proof.
+  intros text pt Hpt tk c1 c2 H. destruct tk; cbn [token_with].
+  - eapply G_bind; [apply reset_after_text_rel; exact H|]. intros x1 x2 Hx. rce Hx.
+    eapply G_bind; [apply append_node_rel; exact HR|].
+    intros [i1 z1] [i2 z2] [_ Hz]. constructor. exact Hz.
+  - eapply G_bind; [apply reset_after_text_rel; exact H|]. intros x1 x2 Hx. rce Hx.
+    eapply G_bind; [apply append_node_rel; exact HR|].
+    intros [i1 z1] [i2 z2] [_ Hz]. constructor. exact Hz.
+  - rce H. cproj. constructor. rc. exact HR.
+  - eapply G_bind; [apply reset_after_text_rel; exact H|]. intros x1 x2 Hx. rce Hx.
+    destruct (bytes_eqb (slice_bytes text prefix) xmlns_str); [apply grel_err_from|].
+    constructor. rc. exact HR.
+  - apply process_attribute_rel; exact H.
+  - eapply G_bind; [apply reset_after_text_rel; exact H|]. intros x1 x2 Hx.
+    apply process_element_rel; exact Hx.
+  - apply Hpt; exact H.
+  - apply process_cdata_rel; exact H.
+Qed.
+
+Lemma HQ_true : forall (ev : Tokenizer.token -> context -> res context) tok c c',
+  ev tok c = Ok c' -> (fun _ : context => True) c -> (fun _ : context => True) c'.
+Proof. auto. Qed.
+
+Lemma parse_content_lvl_rel : forall text lvl s c1 c2, Rc c1 c2 ->
+  G PRc (parse_content_lvl text lvl s c1) (parse_content_lvl text lvl s c2).
+Proof.
+  induction lvl as [|lvl IH]; intros s c1 c2 H; [constructor|].
+  cbn [parse_content_lvl].
+  apply (b_parse_content text context context _ _ False NoRootNode Rc (fun _ => True)); [| |exact H].
+  - intros tok x1 x2 Hx. apply token_with_rel; [|exact Hx].
+    intros t r y1 y2 Hy. apply process_text_with_rel; [|exact Hy].
+    intros s0 z1 z2 Hz. apply IH; exact Hz.
+  - intros; exact I.
+Qed.
+
+Lemma token_rel : forall text tok c1 c2, Rc c1 c2 -> G Rc (token text tok c1) (token text tok c2).
+Proof.
+  intros text tok c1 c2 H. unfold token. apply token_with_rel; [|exact H].
+  intros t r y1 y2 Hy. unfold process_text. apply process_text_with_rel; [|exact Hy].
+  intros s0 z1 z2 Hz. apply parse_content_lvl_rel; exact Hz.
+Qed.
+
+(* the callback commutes with stripping: what is stored in the position fields never
+   influences anything else *)
+Theorem token_strip : forall text tok c1 c2, strip_ctx c1 = strip_ctx c2 ->
+  strip_res (token text tok c1) = strip_res (token text tok c2).
+Proof.
+  intros text tok c1 c2 H. pose proof (token_rel text tok c1 c2 H) as K.
+  destruct K; cbn [strip_res]; try reflexivity.
+  - f_equal. assumption.
+  - contradiction.
+Qed.
+Print Assumptions token_strip.
+
+(* ---- the whole parse ---- *)
+
+Lemma strip_ctx_idem : forall c, strip_ctx (strip_ctx c) = strip_ctx c.
+Proof.
+  intros c. unfold strip_ctx, set_doc, strip_doc. cbn. f_equal. f_equal.
+  - rewrite map_map. apply map_ext. reflexivity.
+  - rewrite map_map. apply map_ext. reflexivity.
+Qed.
+
+(* a builder that strips after every token runs in lockstep with the real one, and its state is
+   always the stripped state *)
+Theorem parse_document_strip : forall text (ev' : Tokenizer.token -> context -> res context) dtd c0,
+  (forall tok c, ev' tok c = strip_res (token text tok c)) ->
+  parse_document text context ev' dtd (strip_ctx c0) =
+  strip_res (parse_document text context (token text) dtd c0).
+Proof.
+  intros text ev' dtd c0 Hev'.
+  pose proof (b_parse_document text context context (token text) ev' False NoRootNode
+                (fun c1 c2 => c2 = strip_ctx c1) (fun _ => True)) as K.
+  assert (G (fun c1 c2 => c2 = strip_ctx c1)
+            (parse_document text context (token text) dtd c0)
+            (parse_document text context ev' dtd (strip_ctx c0))) as L.
+  { apply K; [| |reflexivity].
+    - intros tok c1 c2 ->. rewrite Hev'.
+      rewrite <- (token_strip text tok c1 (strip_ctx c1)) by (symmetry; apply strip_ctx_idem).
+      destruct (token text tok c1); constructor. reflexivity.
+    - intros; exact I. }
+  destruct L; cbn [strip_res]; try reflexivity.
+  - subst; reflexivity.
+  - contradiction.
+Qed.
+Print Assumptions parse_document_strip.
+
+(* hence the whole parse: a build that stores nothing in those fields produces the stripped
+   document *)
+Theorem parse_strip_invariant : forall text opt d, parse text opt = Ok d ->
+  forall (ev' : Tokenizer.token -> context -> res context),
+    (forall tok c, ev' tok c = strip_res (token text tok c)) ->
+    exists c0 c', init_context text opt = Ok c0 /\
+      parse_document text context ev' (allow_dtd opt) (strip_ctx c0) = Ok c' /\
+      c_doc c' = strip_doc d.
+Proof.
+  intros text opt d H ev' Hev'. unfold parse in H.
+  apply bind_ok in H. destruct H as [c0 [H0 H]].
+  apply bind_ok in H. destruct H as [c1 [H1 H]].
+  apply bind_ok in H. destruct H as [it [_ H]].
+  apply bind_ok in H. destruct H as [he [_ H]].
+  destruct (negb he); [discriminate|].
+  destruct (1 <? len_N (c_parent_prefixes c1)); [discriminate|].
+  inversion H; subst d.
+  exists c0, (strip_ctx c1). split; [assumption|]. split; [|reflexivity].
+  rewrite (parse_document_strip text ev' _ c0 Hev'), H1. reflexivity.
+Qed.
+Print Assumptions parse_strip_invariant.
+
+(* ... and reports the same errors (and the same panics) *)
+Theorem parse_strip_errors : forall text dtd c0 e (ev' : Tokenizer.token -> context -> res context),
+  (forall tok c, ev' tok c = strip_res (token text tok c)) ->
+  parse_document text context (token text) dtd c0 = Err e ->
+  parse_document text context ev' dtd (strip_ctx c0) = Err e.
+Proof.
+  intros text dtd c0 e ev' Hev' H. rewrite (parse_document_strip text ev' dtd c0 Hev'), H. reflexivity.
+Qed.
+Print Assumptions parse_strip_errors.
+
+(* the checks made by parse() after the tokenizer run do not look at the position fields either *)
+Lemma strip_node_data_of : forall d id,
+  node_data_of (strip_doc d) id =
+  match node_data_of d id with Ok nd => Ok (strip_node nd) | Err e => Err e | Panic p => Panic p
+                             | OutOfFuel => OutOfFuel end.
+Proof.
+  intros d id. unfold node_data_of, get_node, strip_doc. cbn [d_nodes]. rewrite nth_N_map.
+  destruct (nth_N (d_nodes d) id); reflexivity.
+Qed.
+
+Lemma strip_get_node : forall d id, get_node (strip_doc d) id = option_map strip_node (get_node d id).
+Proof. intros. unfold get_node, strip_doc. cbn [d_nodes]. apply nth_N_map. Qed.
+
+Lemma strip_node_unwrap : forall d id, node_unwrap (strip_doc d) id = node_unwrap d id.
+Proof. intros. unfold node_unwrap. rewrite strip_get_node. destruct (get_node d id); reflexivity. Qed.
+
+Lemma strip_opt_unwrap : forall d o, opt_unwrap_node (strip_doc d) o = opt_unwrap_node d o.
+Proof. intros d [id|]; cbn [opt_unwrap_node]; [rewrite strip_node_unwrap|]; reflexivity. Qed.
+
+Lemma strip_last_child : forall d id, last_child (strip_doc d) id = last_child d id.
+Proof.
+  intros. unfold last_child. rewrite strip_node_data_of.
+  destruct (node_data_of d id); cbn [bind]; try reflexivity. apply strip_opt_unwrap.
+Qed.
+
+Lemma strip_first_child : forall d id, first_child (strip_doc d) id = first_child d id.
+Proof.
+  intros. unfold first_child. rewrite strip_node_data_of.
+  destruct (node_data_of d id) as [nd| | |]; cbn [bind]; try reflexivity.
+  cbn [strip_node nd_last_child]. destruct (nd_last_child nd); [|reflexivity].
+  destruct (node_id_new (id + 1)); cbn [bind]; try reflexivity. rewrite strip_node_unwrap. reflexivity.
+Qed.
+
+Lemma strip_next_sibling : forall d id, next_sibling (strip_doc d) id = next_sibling d id.
+Proof.
+  intros. unfold next_sibling. rewrite strip_node_data_of.
+  destruct (node_data_of d id) as [nd| | |]; cbn [bind]; try reflexivity.
+  cbn [strip_node nd_next_subtree]. destruct (nd_next_subtree nd) as [nid|]; [|reflexivity].
+  rewrite strip_node_unwrap. destruct (node_unwrap d nid) as [nid'| | |]; cbn [bind]; try reflexivity.
+  rewrite strip_node_data_of. destruct (node_data_of d nid') as [nnd| | |]; cbn [bind]; reflexivity.
+Qed.
+
+Lemma strip_children : forall d id, children (strip_doc d) id = children d id.
+Proof. intros. unfold children. rewrite strip_first_child, strip_last_child. reflexivity. Qed.
+
+Lemma strip_children_next : forall d it, children_next (strip_doc d) it = children_next d it.
+Proof.
+  intros. unfold children_next. destruct (opt_N_eqb (ch_front it) (ch_back it)); [reflexivity|].
+  destruct (ch_front it); [|reflexivity]. rewrite strip_next_sibling. reflexivity.
+Qed.
+
+Lemma strip_node_is_element : forall d id, node_is_element (strip_doc d) id = node_is_element d id.
+Proof.
+  intros. unfold node_is_element. rewrite strip_node_data_of.
+  destruct (node_data_of d id); reflexivity.
+Qed.
+
+Lemma strip_children_any_element : forall fuel d it,
+  children_any_element fuel (strip_doc d) it = children_any_element fuel d it.
+Proof.
+  induction fuel as [|fu IH]; intros d it; cbn [children_any_element]; [reflexivity|].
+  rewrite strip_children_next. destruct (children_next d it) as [[o it']| | |]; cbn [bind]; try reflexivity.
+  destruct o as [n|]; [|reflexivity]. rewrite strip_node_is_element, IH. reflexivity.
+Qed.
+
+(* parse() of a build without the position fields: the tokenizer is run with the stripping
+   callback from the stripped initial context *)
+Definition parse_np (text : bytes) (ev' : Tokenizer.token -> context -> res context) (opt : options)
+  : res document :=
+  let! c := init_context text opt in
+  let! c := parse_document text context ev' (allow_dtd opt) (strip_ctx c) in
+  let d := c_doc c in
+  let! it := children d 0 in
+  let! has_elem := children_any_element (S (length (d_nodes d))) d it in
+  if negb has_elem then Err NoRootNode
+  else if 1 <? len_N (c_parent_prefixes c) then Err UnclosedRootNode
+  else Ok d.
+
+(* same inputs accepted, same errors (and panics), same tree up to the position fields *)
+Theorem parse_np_correct : forall text opt (ev' : Tokenizer.token -> context -> res context),
+  (forall tok c, ev' tok c = strip_res (token text tok c)) ->
+  parse_np text ev' opt =
+  match parse text opt with
+  | Ok d => Ok (strip_doc d) | Err e => Err e | Panic p => Panic p | OutOfFuel => OutOfFuel
+  end.
+Proof.
+  intros text opt ev' Hev'. unfold parse_np, parse.
+  destruct (init_context text opt) as [c0| | |]; cbn [bind]; try reflexivity.
+  rewrite (parse_document_strip text ev' _ c0 Hev').
+  destruct (parse_document text context (token text) (allow_dtd opt) c0) as [c1| | |];
+    cbn [bind strip_res]; try reflexivity.
+  change (c_doc (strip_ctx c1)) with (strip_doc (c_doc c1)).
+  change (c_parent_prefixes (strip_ctx c1)) with (c_parent_prefixes c1).
+  rewrite strip_children.
+  destruct (children (c_doc c1) 0) as [it| | |]; cbn [bind]; try reflexivity.
+  replace (length (d_nodes (strip_doc (c_doc c1)))) with (length (d_nodes (c_doc c1)))
+    by (unfold strip_doc; cbn [d_nodes]; rewrite map_length; reflexivity).
+  rewrite strip_children_any_element.
+  destruct (children_any_element _ (c_doc c1) it) as [he| | |]; cbn [bind]; try reflexivity.
+  destruct (negb he); [reflexivity|].
+  destruct (1 <? len_N (c_parent_prefixes c1)); reflexivity.
+Qed.
+Print Assumptions parse_np_correct.
